@@ -35,8 +35,8 @@ def plan(tier, seed):
     quick = tier == "quick"
     return {
         "nshards": 16,
-        "params": {"soft_s": 75 if quick else 800, "script_len": 10 if quick else 20, "fault_every": 6 if quick else 3, "fault_points": 3 if quick else 12},
-        "hard_timeout_s": 400 if quick else 3000,
+        "params": {"soft_s": 300 if quick else 1200, "nprograms": 5 if quick else 60, "script_len": 10 if quick else 20, "fault_every": 6 if quick else 3, "fault_points": 3 if quick else 12},
+        "hard_timeout_s": 700 if quick else 3400,
     }
 
 
@@ -46,13 +46,13 @@ def shard(ctx):
 
 
 def finish(agg, tier):
-    cov, inc = per_op_coverage(agg, 30 if tier == "quick" else 45)
+    cov, inc = per_op_coverage(agg, 15 if tier == "quick" else 40)
     for k in ("purity.fingerprints", "purity.cursor_checks", "purity.str_checks", "purity.after_accepted", "purity.after_rejected", "purity.reruns", "fault.injections", "fault.surfaced", "fault.swallowed", "fault.count_runs"):
         cov[k.replace(".", "_")] = agg.stats.get(k, 0)
     if agg.stats.get("fault.injections", 0) < 100:
         inc.append("fewer than 100 injected faults")
-    if agg.stats.get("purity.after_rejected", 0) < 200:
-        inc.append("fewer than 200 rejected calls observed")
+    if agg.stats.get("purity.after_rejected", 0) < 60:
+        inc.append("fewer than 60 rejected calls observed")
     return {"evaluations": agg.stats.get("evaluations", 0), "coverage": cov, "inconclusive": inc}
 
 
